@@ -11,6 +11,12 @@ T_PATHS = 'bounded-exhaustive exploration of the row transition system (all row 
 T_HIST = 'explicit-state BFS over call histories on live objects with reflection snapshots'
 
 CHECKS = {
+    'C12': ("(a) Every token history up to depth 2 (thorough 3) over 12 valid + 17 malformed tokens on ONE live spine importer of each of 8 spine types, followed by closure of the importer's "
+            "reflection-fingerprint graph: the outcome for a token must equal the outcome on a fresh importer. (b) Four skeleton documents (1-3 spines incl. root/dynam/harm/mxhm, a split) x "
+            "every placement of one malformed cell x 17 malformed texts, every pair of placements (thorough: every triple on the small skeleton), and a blank line before the damage; "
+            "oracle = reference model of the damaged document (one error per malformed kern cell with physical line number and text, other tokens untouched, malformed cells "
+            "verbatim in place) + undamaged twin.",
+            'Trusted: kv/model.py, kv/snapshot.py. The prefix-parse class (characters after a valid token are dropped) is a known finding.', T_HIST + ' + ' + T_PATHS, 'DESIGN.md §3 C12'),
     'C14': ("Explicit-state BFS over call histories on a live Document (8 documents quick / 41 thorough, incl. one with import errors, one without measures, one without clef; 70-75 read-only "
             "operations incl. calls that raise): state = reflection snapshot of the document, of every mutable module-level container and class attribute of kernpy, and of every "
             "option object handed to a call. Every op, every op twice and ALL ordered op pairs (chained on one live object) must return what a fresh import returns; two imports must be "
